@@ -2,7 +2,7 @@
 
 REG = {
     "C01": {
-        "module": "Props.C01",
+        "module": ["Props.C01", "Props.C01Gen"],
         "suites": [("bls", (1500, 60000))],
         "rule": "random operator trees (2-9 nodes, all six operators, leaf sets incl. huge values, k from 0 to beyond 2**64, "
                 "alignments 1..64, divisors 1..2**20) built through the public BitLengthSet API, with 2-25 queries each; "
